@@ -163,11 +163,23 @@ def run_rd(m, nmodels, opt, ring=False):
     try:
         arr = build_mol(m, nmodels, as_stack=(nmodels > 1))
         n = arr.array_length()
+        pristine = arr.copy()
         with warnings.catch_warnings():
             warnings.simplefilter("ignore")
             mol = brd.to_mol(arr, explicit_hydrogen=TRI[opt["eh"]], kekulize=bool(opt["kek"]),
                              use_dative_bonds=bool(opt["dative"]))
             back = brd.from_mol(mol, conformer_id=CONF[opt["conf"]], add_hydrogen=TRI[opt["ah"]])
+        # frame condition: the bridge reads the caller's structure, it never writes to it (a molecule
+        # that is converted twice, or written to a file afterwards, must still be the same molecule);
+        # the outcome "ArgumentChanged" is one the specification never allows
+        cats = pristine.get_annotation_categories()
+        if not (arr.get_annotation_categories() == cats
+                and (arr.bonds is None) == (pristine.bonds is None)
+                and (arr.bonds is None or np.array_equal(arr.bonds.as_array(), pristine.bonds.as_array()))
+                and np.array_equal(arr.coord, pristine.coord)
+                and all(arr.get_annotation(c).tolist() == pristine.get_annotation(c).tolist() for c in cats)):
+            ev["oc"] = "ArgumentChanged"
+            ev["err"] = "to_mol/from_mol modified the caller's structure"
         c_in = arr.coord if arr.coord.ndim == 3 else arr.coord[None]
         stack = isinstance(back, struc.AtomArrayStack)
         c_out = back.coord if stack else back.coord[None]
